@@ -694,6 +694,42 @@ func (in *interp) floatToInt(f *Term, ws int, kd types.BasicKind) *Term {
 	if f.Op == OpIte {
 		return tp.Ite(f.Args[0], in.floatToInt(f.Args[1], ws, kd), in.floatToInt(f.Args[2], ws, kd))
 	}
+	if f.Op == OpFPDiv {
+		// trunc(a/b) for exactly represented integers a, b (|a| < 2^prec) is the truncated integer
+		// quotient: the rounding error of the float quotient is below the distance 1/|b| of a
+		// non-integral quotient from the next integer (lemma: intfloat-div, checked by selftest).
+		if x1, w1, ok1 := tp.intView(f.Args[0]); ok1 {
+			if x2, w2, ok2 := tp.intView(f.Args[1]); ok2 && max(w1, w2)+1 <= 64 {
+				W := max(w1, w2) + 1
+				a, b := tp.resizeSigned(x1, W), tp.resizeSigned(x2, W)
+				q := tp.bvBin(OpBVSDiv, a, b)
+				bZero := tp.Eq(b, tp.BV(0, W))
+				conv := func(w int) *Term {
+					indef := tp.BV(uint64(1)<<uint(w-1), w)
+					var val *Term
+					if W <= w {
+						val = tp.resizeSigned(q, w)
+					} else {
+						lo := tp.BV(uint64(int64(-1)<<uint(w-1)), W)
+						hi := tp.BV(uint64(int64(1)<<uint(w-1)-1), W)
+						inRange := tp.And(tp.bvCmp(OpBVSle, lo, q), tp.bvCmp(OpBVSle, q, hi))
+						val = tp.Ite(inRange, tp.Extract(w-1, 0, q), indef)
+					}
+					return tp.Ite(bZero, indef, val)
+				}
+				switch kd {
+				case types.Int64, types.Int:
+					return conv(64)
+				case types.Int32:
+					return conv(32)
+				case types.Int16, types.Int8, types.Uint16, types.Uint8:
+					return tp.Extract(kindWidth(kd)-1, 0, conv(32))
+				case types.Uint32:
+					return tp.Extract(31, 0, conv(64))
+				}
+			}
+		}
+	}
 	if x, eff, ok := tp.intView(f); ok && !f.IsConst() {
 		// exact integer: the hardware conversion is the integer itself when it fits, else the indefinite value
 		cvtI := func(w int) *Term {
